@@ -40,6 +40,14 @@ func nestedBody(depth int) []byte {
 	return inner
 }
 
+func nestedBodyBad(depth int) []byte {
+	inner := rawAVP(268, 0x40, 0, 16, []byte{0, 0, 7, 209}, true)
+	for i := 0; i < depth; i++ {
+		inner = rawAVP(279, 0x40, 0, 8+len(inner), inner, true)
+	}
+	return inner
+}
+
 // childMain runs one measurement and prints one line; called as `harness child <op> args...`
 func childMain(args []string) {
 	debug.SetGCPercent(-1) // TotalAlloc then counts every byte allocated
@@ -82,6 +90,11 @@ func childMain(args []string) {
 		depth, _ := strconv.Atoi(args[1])
 		op := args[2]
 		body := nestedBody(depth)
+		if len(args) > 3 && args[3] == "1" {
+			// the innermost AVP claims four bytes more than there are: decoding fails at the bottom
+			// of the nesting, and the error travels all the way up
+			body = nestedBodyBad(depth)
+		}
 		msg := append(rawHeader(20+len(body), 0x80, 280, 0, 1, 1), body...)
 		runtime.ReadMemStats(&before)
 		m, err := diam.ReadMessage(bytes.NewReader(msg), dict.Default)
@@ -263,7 +276,8 @@ func execResource(toks []string) string {
 	case "nest":
 		d, _ := kvGet(toks, "depth")
 		op, _ := kvGet(toks, "op")
-		return runChild(90*time.Second, "nest", d, op)
+		bad, _ := kvGet(toks, "bad")
+		return runChild(90*time.Second, "nest", d, op, bad)
 	case "buflen":
 		nl, _ := kvGet(toks, "to")
 		b, _ := kvGet(toks, "body")
@@ -296,6 +310,9 @@ func genResource(r *RNG, n int, op string, emit func(string)) {
 			}
 		}
 	case "nest":
+		for _, d := range []int{64, 300, 1000, 3000} {
+			emit(fmt.Sprintf("resource nest depth=%d op=decode bad=1", d))
+		}
 		for _, d := range []int{1, 8, 64, 300, 1000} {
 			for _, o := range []string{"decode", "string", "pretty", "serialize", "find"} {
 				emit(fmt.Sprintf("resource nest depth=%d op=%s", d, o))
